@@ -65,7 +65,11 @@ def replayer(extra, path):
     from harness.httpsim import LogCapture
     cfg, v = extra["cfg"], extra["variant"]
     with LogCapture():
-        real = W.CloseReal(cfg, chunk_mode=v["chunk"], seed=v["seed"])
+        try:
+            real = W.CloseReal(cfg, chunk_mode=v["chunk"], seed=v["seed"])
+        except W.HandshakeFailed as e:     # an observation about the code under test, not a harness failure
+            return {"step": 0, "act": "handshake", "args": [], "exp": "opening handshake completes", "obs": str(e)[:400],
+                    "sig": {"act": "handshake", "where": e.where, "role": cfg["role"], "ping": cfg["ping"], "async": cfg["async"]}}
         try:
             for i, s in enumerate(path):
                 exp = s["exp"]
@@ -114,7 +118,10 @@ def random_trace(job):
     cfg = {"role": role, "ping": rng.random() < 0.5, "async": role == "server" and rng.random() < 0.5}
     ev = []
     with LogCapture():
-        real = W.CloseReal(cfg, chunk_mode=rng.randrange(3), seed=seed)
+        try:
+            real = W.CloseReal(cfg, chunk_mode=rng.randrange(3), seed=seed)
+        except W.HandshakeFailed as e:      # no specification action is called "error:...": TLC rejects the trace
+            return {"id": tid, "cfg": cfg, "ev": [{"a": "error:handshake", "args": [e.where, e.detail], "obs": {"err": "handshake"}}]}
         try:
             obs = real.proj()
             peer_closed = peer_gone = False
